@@ -28,7 +28,11 @@ from vgi_rpc.rpc import AuthContext
 
 PROPERTY = "C14"
 ENCODED = [st._CallStateCache.get, st._CallStateCache.put, st._CallStateCache._identity, aps._unpack_and_recover_state, aps._resolve_call_from_token, aps._run_stream_init_sync]
-BOUNDS = "(a) op sequences <= %d over 2 call ids x 3 identities, capacity 0..2, unbounded integer clock/ttl; (b) 2 streams, 3 owners of stream 1, 3 cursor-slot x 2 call-slot presentations, arbitrary invariant-satisfying cache of capacity %s, unbounded integer request time, ttl 0 or 50; (c) all identities, unbounded lengths" % (pick(4, 5), pick("2", "0..2"))
+BOUNDS = (
+    "(a) histories of <= %d operations over 3 keys (2 call ids x 2 identities), capacity 1..2, and one inductive step from ANY cache state (<= capacity entries, any LRU order, any expiry) "
+    "with capacity 0..2; unbounded integer clock/ttl; (b) 2 streams opened at t=100 (stream 1 by 3 possible owners), cursor slot stream 1 / stream 2 (refreshed at any t1) / garbage, "
+    "call slot = that stream's call token, arbitrary invariant-satisfying cache of capacity 2, any request time >= t1, ttl 0 or 50; (c) all identities, unbounded lengths" % pick(3, 4)
+)
 OUTSIDE = (
     "requests that do not echo a server-minted call token (absent / garbage / kind-swapped): on a hit the call token is not consulted at all, so such a request is served by a warm "
     "worker and rejected by a cold one - documented in _unpack_and_recover_state ('may be None when the cache is expected to hit; a miss then fails') and excluded from the transparency claim; "
